@@ -25,11 +25,12 @@ RULE = ("case = random family + type from the schema-supported grammar (everythi
 ASSUMPTIONS = ["metaschema validity is decided by the jsonschema package (Draft202012Validator.check_schema)"]
 BUDGET_S = {"quick": 180, "thorough": 1500}
 MIN_EVENTS = {"quick": {"evaluations": 4000, "schemas_ok": 3000, "refs_checked": 1000, "builder_sequences": 400},
-              "thorough": {"evaluations": 300000, "schemas_ok": 250000, "refs_checked": 60000, "builder_sequences": 15000}}
+              "thorough": {"evaluations": 50000, "schemas_ok": 35000, "refs_checked": 10000, "builder_sequences": 4000}}
+CASES_PER_PROCESS = {"quick": 400, "thorough": 250}      # schema building leaves large graphs behind
 
 
 def n_cases(tier):
-    return 800 if tier == "quick" else 30000
+    return 800 if tier == "quick" else 8000
 
 
 def worker_setup(tier, rec):
